@@ -1406,6 +1406,9 @@ def compile_pattern(compiler, pattern):
         ]
         return asty.MatchSequence(value, patterns=patterns)
     elif is_unpack("iterable", value):
+        if value[1] == Symbol("_"):
+            # `#* _` is a wildcard, like Python's `*_`, not a capture.
+            return asty.MatchStar(value, name=None)
         return compiler.scope.assign(asty.MatchStar(value, name=mangle(value[1])))
 
     elif isinstance(value, Dict):
